@@ -376,33 +376,93 @@ pub fn run_incr(obs: &Arc<Obs>, scenarios: &[J], out: &mut dyn Write, scratch: &
 /// C10: several handles on the same files.  Scenario steps:
 ///   ["open", h] ["tx", h, ops] ["compact", h] ["close", h] ["drop", h] ["child-open"] (a second process)
 /// At the end every handle is dropped, the database reopened and dumped.
+enum Handle {
+    Engine(GraphEngine),
+    Db(nervusdb_core::Db),
+}
+
+fn db_tx(db: &nervusdb_core::Db, ops: &[J]) -> String {
+    let r = std::panic::catch_unwind(std::panic::AssertUnwindSafe(|| -> Result<(), String> {
+        let mut t = db.begin_write();
+        for o in ops {
+            match o[0].as_str().unwrap_or("") {
+                "CreateNode" => {
+                    let l = t.get_or_create_label(o[2].as_str().unwrap_or("A")).map_err(|e| format!("err:{e}"))?;
+                    t.create_node(o[1].as_str().unwrap().parse().unwrap(), l).map_err(|e| format!("err:{e}"))?;
+                }
+                "CreateEdge" => {
+                    let r = t.get_or_create_rel_type(o[2].as_str().unwrap_or("R")).map_err(|e| format!("err:{e}"))?;
+                    t.create_edge(o[1].as_u64().unwrap() as u32, r, o[3].as_u64().unwrap() as u32);
+                }
+                other => return Err(format!("unsupported:{other}")),
+            }
+        }
+        t.commit().map_err(|e| format!("err:{e}"))
+    }));
+    match r { Ok(Ok(())) => "ok".into(), Ok(Err(e)) => e, Err(_) => "panic".into() }
+}
+
+/// C10: several handles on one database.  `pre` = what lies at the path before the first open; an open step names the
+/// way the handle is obtained (engine paths, Db with the base path / the .ndb path / the .wal path, through a symlinked
+/// directory).
 pub fn run_handles(scenarios: &[J], out: &mut dyn Write, scratch: &Path) -> J {
     use std::collections::BTreeMap;
     let exe = std::env::current_exe().unwrap();
     for sc in scenarios {
         let id = sc["id"].as_str().unwrap_or("s").to_string();
         let dir = scratch.join("handles");
+        let link = scratch.join("handles-link");
         let _ = std::fs::remove_dir_all(&dir);
+        let _ = std::fs::remove_file(&link);
         std::fs::create_dir_all(&dir).unwrap();
-        let mut handles: BTreeMap<String, GraphEngine> = BTreeMap::new();
-        let mut steps = Vec::new();
+        #[cfg(unix)]
+        let _ = std::os::unix::fs::symlink(&dir, &link);
         let mut acked: Vec<J> = Vec::new();
+        match sc["pre"].as_str().unwrap_or("none") {
+            "empty-ndb" => { std::fs::File::create(dir.join("g.ndb")).unwrap(); }
+            "empty-wal" => { std::fs::File::create(dir.join("g.wal")).unwrap(); }
+            "both-empty" => { std::fs::File::create(dir.join("g.ndb")).unwrap(); std::fs::File::create(dir.join("g.wal")).unwrap(); }
+            "zero-pages" => { std::fs::write(dir.join("g.ndb"), vec![0u8; 2 * nervusdb_storage::PAGE_SIZE]).unwrap(); }
+            "closed-db" => {
+                if let Ok(e) = open_engine(&dir) {
+                    if apply_ops(&e, &[json!(["CreateNode", "100", "Pre"])], true).0 == "ok" { acked.push(json!(["pre", "100"])); }
+                    let _ = e.checkpoint_on_close();
+                }
+            }
+            "dropped-db" => {
+                if let Ok(e) = open_engine(&dir) {
+                    if apply_ops(&e, &[json!(["CreateNode", "100", "Pre"])], true).0 == "ok" { acked.push(json!(["pre", "100"])); }
+                }
+            }
+            _ => {}
+        }
+        let mut handles: BTreeMap<String, Handle> = BTreeMap::new();
+        let mut steps = Vec::new();
         for st in sc["steps"].as_array().cloned().unwrap_or_default() {
             let kind = st[0].as_str().unwrap_or("");
             let h = st[1].as_str().unwrap_or("").to_string();
             let others_open = handles.keys().filter(|k| **k != h).count();
             let res = match kind {
-                "open" => match open_engine(&dir) {
-                    Ok(e) => {
-                        handles.insert(h.clone(), e);
-                        "ok".to_string()
+                "open" => {
+                    let via = st.get(2).and_then(|x| x.as_str()).unwrap_or("engine");
+                    let r: Result<Handle, String> = std::panic::catch_unwind(std::panic::AssertUnwindSafe(|| match via {
+                        "engine" => open_engine(&dir).map(Handle::Engine),
+                        "symlink" => open_engine(&link).map(Handle::Engine),
+                        "db" => nervusdb_core::Db::open(dir.join("g")).map(Handle::Db).map_err(|e| format!("err:{e}")),
+                        "db-ndb" => nervusdb_core::Db::open(dir.join("g.ndb")).map(Handle::Db).map_err(|e| format!("err:{e}")),
+                        "db-wal" => nervusdb_core::Db::open(dir.join("g.wal")).map(Handle::Db).map_err(|e| format!("err:{e}")),
+                        "db-symlink" => nervusdb_core::Db::open(link.join("g")).map(Handle::Db).map_err(|e| format!("err:{e}")),
+                        other => Err(format!("unknown-via:{other}")),
+                    })).unwrap_or_else(|_| Err("panic:open".into()));
+                    match r {
+                        Ok(x) => { handles.insert(h.clone(), x); "ok".to_string() }
+                        Err(e) => e,
                     }
-                    Err(e) => e,
-                },
+                }
                 "tx" => match handles.get(&h) {
-                    Some(e) => {
+                    Some(hd) => {
                         let ops = st[2].as_array().cloned().unwrap_or_default();
-                        let (r, _) = apply_ops(e, &ops, true);
+                        let r = match hd { Handle::Engine(e) => apply_ops(e, &ops, true).0, Handle::Db(d) => db_tx(d, &ops) };
                         if r == "ok" {
                             for o in &ops {
                                 if o[0] == "CreateNode" {
@@ -415,17 +475,13 @@ pub fn run_handles(scenarios: &[J], out: &mut dyn Write, scratch: &Path) -> J {
                     None => "not-open".into(),
                 },
                 "compact" => match handles.get(&h) {
-                    Some(e) => match e.compact() {
-                        Ok(()) => "ok".into(),
-                        Err(e) => format!("err:{e}"),
-                    },
+                    Some(Handle::Engine(e)) => match e.compact() { Ok(()) => "ok".into(), Err(e) => format!("err:{e}") },
+                    Some(Handle::Db(d)) => match d.compact() { Ok(()) => "ok".into(), Err(e) => format!("err:{e}") },
                     None => "not-open".into(),
                 },
                 "close" => match handles.remove(&h) {
-                    Some(e) => match e.checkpoint_on_close() {
-                        Ok(()) => "ok".into(),
-                        Err(e) => format!("err:{e}"),
-                    },
+                    Some(Handle::Engine(e)) => match e.checkpoint_on_close() { Ok(()) => "ok".into(), Err(e) => format!("err:{e}") },
+                    Some(Handle::Db(d)) => match d.close() { Ok(()) => "ok".into(), Err(e) => format!("err:{e}") },
                     None => "not-open".into(),
                 },
                 "drop" => {
@@ -456,8 +512,9 @@ pub fn run_handles(scenarios: &[J], out: &mut dyn Write, scratch: &Path) -> J {
             Ok(e) => json!({"open": "ok", "d": dump_engine(&e, &keys)}),
             Err(e) => json!({"open": e, "d": {"e2i": []}}),
         };
-        writeln!(out, "{}", json!({"ev": "handles", "id": id, "steps": steps, "acked": acked, "final": fin})).unwrap();
+        writeln!(out, "{}", json!({"ev": "handles", "id": id, "pre": sc["pre"].as_str().unwrap_or("none"), "steps": steps, "acked": acked, "final": fin})).unwrap();
         let _ = std::fs::remove_dir_all(&dir);
+        let _ = std::fs::remove_file(&link);
     }
     json!({"scenarios": scenarios.len()})
 }
